@@ -803,7 +803,7 @@ func TestC39(t *testing.T) {
 	defer r.Finish()
 	r.Rule("case = history on a real shard with the engine's background compaction goroutines on: sequential prefix (9 × write+snapshot), then 1–2 rounds of 4–8 concurrent clients × 4–9 ops (writes of unique values, range reads both directions, and — by mode — range deletes or snapshot / ScheduleFullCompaction / Backup / compactions off-on), seeded yields and microsleeps at 13 hook points, barrier with full reads, close+reopen, full reads; oracles: race detector, crash, quiescence deadlock detector, porcupine per (series, field); non-trivial = ≥20 recorded model ops; distinct = hash of the recorded history")
 	r.Assume("delete-mode histories contain no cache snapshot (known finding C03-delete-during-inflight-snapshot is C03's to report); close+reopen happens at barriers")
-	n := r.N(12, 800)
+	n := r.N(12, 250)
 	for i := 0; i < n; i++ {
 		c39History(r, i, r.Rand(i))
 		if r.Violations() > 3 {
